@@ -18,6 +18,10 @@ def outcomes_of(kind, rng, grid, weights=None):
         return [(v, F(1, rng)) for v in range(rng)]
     if kind == "u01":
         return [((g + 0.5) / grid, F(1, grid)) for g in range(grid)]
+    if kind == "sample":
+        m, k = rng
+        sel = list(itertools.permutations(range(m), k))
+        return [(list(p), F(1, len(sel))) for p in sel]
     if kind == "perm":
         perms = list(itertools.permutations(range(rng)))
         return [(list(p), F(1, len(perms))) for p in perms]
